@@ -3,11 +3,15 @@ package main
 import (
 	"fmt"
 	"net/http"
+	"regexp"
 	"strings"
 )
 
 // namedStringFormats: registered string formats whose Go type is a named string type.
-var namedStringFormats = map[string]bool{"uuid": true, "email": true, "ipv4": true}
+var namedStringFormats = map[string]bool{"uuid": true, "email": true, "ipv4": true, "hexcolor": true, "own:hexcolor": true, "own:x-shout": true}
+
+// itemTypeMessage: validate's complaint about item N of an array parameter.
+var itemTypeMessage = regexp.MustCompile(`\.[0-9]+ in [a-zA-Z]+ must be of type string`)
 
 func containsVal(l []val, v val) bool {
 	for _, o := range l {
@@ -134,6 +138,8 @@ func judge(level string, d Decl, q Req, e expect, o obs) (string, string) {
 		}
 		if !e.R422 {
 			switch {
+			case d.Type == "array" && et == "string" && namedStringFormats[ef] && itemTypeMessage.MatchString(o.Message):
+				return "rejected-valid/array-items-of-string-format-with-named-go-string-type", what
 			case et == "string" && namedStringFormats[ef] && strings.Contains(o.Message, "must be of type string"):
 				return "rejected-valid/string-format-with-named-go-string-type", what
 			case et == "string" && ef == "byte" && strings.ContainsAny(lastText(d, q), "+/") && strings.Contains(o.Message, "must be of type byte"):
